@@ -47,6 +47,12 @@ def run(ctx):
     ctx.guarded("R02.6", "body", lambda: c01.body(_Remap(ctx, "R02.6")))
     ctx.guarded("R02.6", "cursor", lambda: c01.cursor_defined(_Remap(ctx, "R02.6")))
     ctx.guarded("R02.7", "u32", lambda: content_length_u32(ctx, "R02.7"))
+    from . import c14, c15
+    ctx.guarded("R02.5", "find", lambda: c14.find_shape(_Remap(ctx, "R02.5")))
+    ctx.rule("R02.8", "a completed request is queued at once, so every request preceding an error is delivered (= C01 R01.8)")
+    ctx.guarded("R02.8", "queue-on-completion", lambda: c01.queue_on_completion(ctx, "R02.8"))
+    ctx.rule("R02.9", "recognised header values are interpreted through trim() and written as the header rules say (= C15 R15.2-R15.6)")
+    ctx.guarded("R02.9", "header-line", lambda: c15.line(_Remap(ctx, "R02.9")))
 
 
 def order(ctx):
